@@ -208,11 +208,47 @@ def unparse_Name(node: Name) -> unparse_gen_t:
     yield
 
 
+# Before Python 3.12 (PEP 701) a string literal inside a replacement field
+# cannot contain the quotes of any f-string around it, and the longer quotes
+# have to be outside: a literal gets its quotes by the number of literals
+# nested in its fields.
+_QUOTES_BY_HEIGHT = ("'", '"', "\'\'\'", '"""')
+
+
+def _str_height(node: expr) -> int:
+    """1 for a literal without literals in its fields, 2 with one level ..."""
+    best = 1
+    # (node, height of the literal it belongs to); a JoinedStr in this list is
+    # either that literal or one of its format specs: its fields are searched
+    todo: list[tuple[AST, int]] = [(node, 1)]
+    while todo:
+        cur, height = todo.pop()
+        if isinstance(cur, JoinedStr):
+            children: list[AST] = []
+            for v in cur.values:
+                if isinstance(v, FormattedValue):
+                    children.append(v.value)
+                    if v.format_spec is not None:
+                        todo.append((v.format_spec, height))
+        else:
+            children = list(iter_child_nodes(cur))
+        for child in children:
+            if isinstance(child, JoinedStr) or (
+                isinstance(child, Constant) and isinstance(child.value, str)
+            ):
+                best = max(best, height + 1)
+                todo.append((child, height + 1))
+            else:
+                todo.append((child, height))
+    return best
+
+
 def get_unescaped_str(string: str, qm: str) -> str:
     out = []
     for i in string:
-        if i == qm:
-            out.append(f"\\{qm}")
+        if i == qm[0]:
+            # (every quote character, also between triple quotes)
+            out.append(f"\\{i}")
         elif ord(i) > 255 and not 0xD800 <= ord(i) <= 0xDFFF:
             out.append(i)
         elif ord(i) > 127 and i.isprintable():
@@ -607,10 +643,23 @@ class _Node:
         gen_func = self.gen_map.get(type(node), unparse_generic)
 
         if gen_func in [unparse_Constant, unparse_JoinedStr]:
-            if outer_str_qm == "'":
-                self.qm = '"'
-            elif outer_str_qm == '"':
-                self.qm = "'"
+            if sys.version_info >= (3, 12) or not (
+                isinstance(node, JoinedStr) or isinstance(node.value, str)  # type: ignore
+            ):
+                self.qm = '"' if outer_str_qm == "'" else "'"
+            elif outer_str_qm in _QUOTES_BY_HEIGHT[1:]:
+                # inside an f-string: the next shorter kind of quotes
+                self.qm = _QUOTES_BY_HEIGHT[_QUOTES_BY_HEIGHT.index(outer_str_qm) - 1]
+            elif outer_str_qm == "":
+                height = _str_height(node)
+                if height > len(_QUOTES_BY_HEIGHT):
+                    raise ValueError(
+                        "f-strings nested more than four levels deep "
+                        "cannot be written before Python 3.12"
+                    )
+                self.qm = _QUOTES_BY_HEIGHT[height - 1]
+            else:  # pragma: no cover
+                raise ValueError("no kind of quotes left for a nested string literal")
             self.gen = gen_func(node, self.qm)
         elif gen_func is unparse_FormattedValue:
             self.qm = outer_str_qm
@@ -640,7 +689,7 @@ they may have multiple slots with different slot precedence value.
 
 def expr_unparse(node: expr) -> str:
     stack: list[_Node] = []
-    stack.append(_Node(PREC_EXPR_SLOT, node, '"'))
+    stack.append(_Node(PREC_EXPR_SLOT, node, ""))
     converted: str | None = None
     while stack:
         try:
